@@ -27,3 +27,14 @@ for _g in _reg_C11.GROUPS:
     if _g['name'] == 'encode_native_decisions_fs8000':
         _h = _copy.deepcopy(_g); _h.pop('prop', None); _h['focus'] = ['^CBR', 'never reports more bytes', 'no output space']; _h['what'] = 'CBR size fixed by opus_encode_native: round(bitrate x duration / 8) clipped; OPUS_BITRATE_MAX fills the buffer; returned length within the buffer'
         GROUPS.append(_h)
+
+for _mt, _mtn, _tier in ((0, 'none', 'quick'), (2, 'ambisonics', 'quick'), (1, 'surround', 'thorough')):
+  GROUPS.append(dict(name='ms_encode_budget_' + _mtn, tier=_tier, defines=['-DVERIF_MT=%d' % _mt], cls='P', tu='C05_ms_budget.c', entry='h_ms_budget', canary='real', expect_canaries=3, unwind=1, unwind_fn={'opus_multistream_encode_native': 22}, timeout=1500, mem_gb=16,
+      replace_calls=['surround_analysis:verif_surround_analysis', 'rate_allocation:verif_rate_allocation'],
+      functions=['opus_multistream_encode_native'],
+      trusted=['stub of opus_encode_native asserting the budget it is offered and assuming the single-stream C05 clause (result < 0 or in 1..budget)',
+               'stub of opus_repacketizer_out_range_impl asserting its window and assuming the C07 clause (re-framing one packet yields at most packet + self-delimiting length bytes; padding fills the window)',
+               'contract stub of frame_size_select (enforced on the real function under C11), stubs of the channel look-ups (C10), opus_encoder_ctl, surround_analysis',
+               'rate_allocation replaced by a stub: assumed clause "with OPUS_AUTO the summed stream rates pay for at least the smallest packet" (2-3 bytes per stream); the per-stream rates themselves have no effect on the byte budget'],
+      bounds='mapping type ' + _mtn + ' (one group per mapping type); everything else symbolic',
+      what='multistream encoder byte budget for any number of streams (1..255) under loop contracts on both stream loops: every stream is offered >= 1 byte (>= 2 for 100 ms), the self-delimiting length always fits, each packet is written where the previous one ended inside max_data_bytes, result in 1..max_data_bytes or a negative error; OPUS_BUFFER_TOO_SMALL only below the smallest possible packet'))
